@@ -96,6 +96,45 @@ type Sched struct {
 	WritePref  bool // model Go's writer preference of RWMutex (two-phase write lock)
 	Livelock   bool
 	BranchFrom int // alternatives of steps before this index are not explored (sequential setup)
+	wind       func()
+}
+
+// OnWind registers a wind-down step for the current execution: after the
+// scenario's final check (the verdict is already fixed) f runs on the root
+// goroutine - typically closing the harness's connections - and the remaining
+// threads are then run to quiescence deterministically (first enabled thread,
+// no clock moves, nothing recorded or branched on) before whatever is still
+// parked is killed. Without it a library goroutine that waits in a real channel
+// operation for threads the explorer kills (e.g. the ConnectionBind handler
+// waiting for its two copy loops) would stay blocked for ever and leak.
+func OnWind(f func()) {
+	if s := Current(); s != nil {
+		s.wind = f
+	}
+}
+
+// drain runs enabled threads (lowest spawn order first) until none is enabled.
+func (s *Sched) drain() {
+	for step := 0; step < 4000; step++ {
+		synctest.Wait()
+		s.mu.Lock()
+		var pick *Thread
+		for _, t := range s.threads {
+			if t.state == stParked && !t.pend.isIdle && s.enabledLocked(t) && (pick == nil || t.order < pick.order) {
+				pick = t
+			}
+		}
+		if pick == nil {
+			s.mu.Unlock()
+
+			return
+		}
+		pick.state = stRunning
+		pick.auxPick = 0
+		s.running = pick
+		s.mu.Unlock()
+		pick.wake <- struct{}{}
+	}
 }
 
 var (
@@ -507,6 +546,10 @@ func RunOne(prefix []int, opt Options, body func(s *Sched) (check func() []strin
 		for _, v := range check() {
 			s.Violations = append(s.Violations, v)
 		}
+	}
+	if s.wind != nil && s.Diverged == "" && !s.Livelock {
+		s.wind()
+		s.drain()
 	}
 	// release everything that is still parked
 	s.mu.Lock()
